@@ -1,0 +1,8 @@
+//go:build verif
+
+package maven
+
+// VerifErrIncompatible is errIncompatible, exported under the "verif" build
+// tag so that an external verification harness can classify the error returned
+// by Resolve with errors.Is instead of by its text.
+var VerifErrIncompatible = errIncompatible
